@@ -1,11 +1,15 @@
 /-
   C08 — natural and mu translations agree with tau*.
-  Status (partial): structural theorems about `mu`/`natural` (totality of mu, per-rule fallback,
-  regularity = acceptance by natural); the semantic theorem `natural_correct` is stated as
-  `NaturalCorrect` and not yet proved; the tie is the exact-output correspondence.
+  Status: proved. `natural_correct`: every formula the natural translation prints for a rule holds
+  in an HT interpretation (H ⊆ T, any world, any assignment) iff the rule is satisfied in the
+  reference semantics - hence iff the rule's tau* formula holds (`natural_equiv_tau_star`,
+  `mu_equiv_tau_star`: formula by formula). `mu` is total. The integer-sorted variables are sound
+  because an instance in which such a variable has a non-integer value holds vacuously
+  (`ruleInst_vacuous`). The fresh interval variables `N<i>` are proved fresh (`headFreshOK`).
 -/
 import AnthemModel.Model.Natural
 import AnthemModel.Semantics.Asp
+import AnthemModel.Proofs.NaturalFresh
 namespace Anthem.C08
 open Asp
 
@@ -13,6 +17,57 @@ open Asp
 def NaturalCorrect : Prop :=
   ∀ (r : Rule) (F : Formula), naturalRule r = some F →
     ∀ (M : HTI), M.Sub → ∀ (w : World) (ρ : Asg), ht M F w ρ ↔ ruleSat M w r
+
+/-- **C08, natural.** -/
+theorem natural_correct : NaturalCorrect :=
+  fun r F h M hs w ρ => naturalRule_sem M hs w r F h (fun a _ => headFreshOK a) ρ
+
+/-- Each formula `translate --with natural` prints is HT-equivalent to the tau* formula of the same
+    rule (with any admissible choice of global variables, in particular the program's). -/
+theorem natural_equiv_tau_star (r : Rule) (F : Formula) (h : naturalRule r = some F)
+    (globals : List String) (hn : globals.Nodup) (hfresh : ∀ g ∈ globals, g ∉ r.vars)
+    (hlen : r.head.arity ≤ globals.length) :
+    HTEquiv F (tauStarRule r globals) := fun M hs w ρ =>
+  (natural_correct r F h M hs w ρ).trans (tauStarRule_sem M w r globals hn hfresh hlen ρ).symm
+
+/-- **C08, mu**: formula by formula, `mu(Π)` and `tau_star(Π)` are HT-equivalent. -/
+theorem mu_equiv_tau_star (P : Program) (hp : globalsPanic P = false) (i : Nat) (hi : i < P.length) :
+    HTEquiv ((mu P)[i]'(by simpa [mu] using hi)) ((tauStar P)[i]'(by simpa [tauStar] using hi)) := by
+  intro M hs w ρ
+  obtain ⟨hn, hfresh, hlen⟩ := chooseFreshGlobals_spec P hp
+  have hr : P[i] ∈ P := List.getElem_mem hi
+  have htau : ht M ((tauStar P)[i]'(by simpa [tauStar] using hi)) w ρ ↔ ruleSat M w P[i] := by
+    simp only [tauStar, List.getElem_map]
+    exact tauStarRule_sem M w P[i] _ hn (fun g hg hx => hfresh g hg (rule_vars_subset P _ hr g hx))
+      (by rw [hlen]; exact arity_le_maxHeadArity P _ hr) ρ
+  rw [htau]
+  simp only [mu, List.getElem_map]
+  cases hnat : naturalRule P[i] with
+  | some F => simp only [hnat]; exact natural_correct P[i] F hnat M hs w ρ
+  | none =>
+    simp only [hnat]
+    exact tauStarRule_sem M w P[i] _ hn (fun g hg hx => hfresh g hg (rule_vars_subset P _ hr g hx))
+      (by rw [hlen]; exact arity_le_maxHeadArity P _ hr) ρ
+
+/-- … and as theories: `mu(Π)` has exactly the HT models of `Π`. -/
+theorem mu_correct (P : Program) (hp : globalsPanic P = false) (M : HTI) (hs : M.Sub) (w : World) (ρ : Asg) :
+    (∀ F ∈ mu P, ht M F w ρ) ↔ progSat M w P := by
+  obtain ⟨hn, hfresh, hlen⟩ := chooseFreshGlobals_spec P hp
+  unfold mu progSat
+  simp only [List.mem_map, forall_exists_index, and_imp, forall_apply_eq_imp_iff₂]
+  refine forall_congr' fun r => imp_congr_right fun hr => ?_
+  cases hnat : naturalRule r with
+  | some F => simp only [hnat]; exact natural_correct r F hnat M hs w ρ
+  | none =>
+    simp only [hnat]
+    exact tauStarRule_sem M w r _ hn (fun g hg hx => hfresh g hg (rule_vars_subset P r hr g hx))
+      (by rw [hlen]; exact arity_le_maxHeadArity P r hr) ρ
+
+/-- Non-vacuity: natural accepts a rule with an interval in the head, arithmetic in the body and an
+    `=`-interval comparison, and introduces the integer variables (kernel-evaluated). -/
+example : (naturalRule ⟨.basic ⟨"p", [.bin .interval (.pre (.num 1)) (.var "N"), .var "X"]⟩,
+    [.lit ⟨.pos, ⟨"q", [.bin .add (.var "X") (.pre (.num 1))]⟩⟩, .cmp .eq (.var "Y") (.bin .interval (.pre (.num 0)) (.var "N"))]⟩).isSome = true := by
+  decide
 
 /-- `mu` never fails and yields one formula per rule. -/
 theorem mu_total (p : Program) : (mu p).length = p.length := by
